@@ -444,9 +444,16 @@ def dominated(repo, key, ws):
             top = u
             while isinstance(p, (ast.Subscript, ast.Attribute)) and p.value is top:
                 top, p = p, parents.get(p)
+            if isinstance(top, ast.Attribute) and top.attr == "get" and isinstance(p, ast.Call) \
+                    and p.func is top:
+                top, p = p, parents.get(p)      # x = CONTAINER.get(k): the entry, or None
             if isinstance(p, ast.Assign) and p.value is top and isinstance(p.targets[0], ast.Name) \
                     and p.targets[0].id in names:
                 continue            # alias definition
+            if isinstance(p, ast.Compare) and len(p.ops) == 1 \
+                    and isinstance(p.ops[0], (ast.Is, ast.IsNot)) \
+                    and isinstance(p.comparators[0], ast.Constant) and p.comparators[0].value is None:
+                continue            # `x is (not) None`: presence test, reads nothing stored
             is_store = isinstance(top, ast.Subscript) and isinstance(top.ctx, ast.Store)
             if is_store:
                 # the store must execute whenever the later reads do: not nested in a
